@@ -34,6 +34,9 @@ def gen_request(r, out):
     if kind in ("part_vars", "both_vars") and out["part"]:
         allp = [n for n, _ in out["part"]["descriptor"]]
         req["part_vars"] = [v for v in allp if r.random() < 0.5] or [r.choice(allp)]
+        if r.random() < 0.5 and len(allp) > 1:
+            # leave out the first variable of the descriptor (per-variable bookkeeping must not hang on it)
+            req["part_vars"] = [v for v in req["part_vars"] if v != allp[0]] or [allp[1]]
     if kind == "partial_components":
         allv = all_mesh_vars(out)
         keep = [v for v in allv if not v.endswith("_y")] if out["ndim"] >= 2 else allv
@@ -97,8 +100,14 @@ def run(ctx):
                 ["momentum_" + c + "_flux" for c in "xyz"[:nd]] if r.random() < 0.6 else ["B_" + c + "_max" for c in "xyz"[:nd]])
             kw = {"ndim": nd, "hydro_vars": names, "exact": False}
             exact = False
-        out = ramses.gen_output(r, max_octs=30, with_part=True if i % 3 == 0 else None, **({"exact": exact} | kw))
+        if i % 9 == 1:
+            kw = dict(kw, ncpu=r.randint(2, 4))
+        out = ramses.gen_output(r, max_octs=30, with_part=True if (i % 3 == 0 or i % 9 == 1) else None, **({"exact": exact} | kw))
         req, kind = gen_request(r, out)
+        if i % 9 == 1 and out["part"] and len(out["part"]["descriptor"]) > 1:
+            # several cpu files, a particle variable list without the first variable of the descriptor
+            allp = [n for n, _ in out["part"]["descriptor"]]
+            req, kind = {"part_vars": [v for v in allp[1:] if r.random() < 0.7] or [allp[1]]}, "part_vars_without_first"
         dist[kind] = dist.get(kind, 0) + 1
         with loadrun.Written(out) as w:
             impl = loadrun.run_impl(osy, w, req)
